@@ -29,9 +29,13 @@ static void* vf_keepreg;
 #include "GC.c"
 #include "vf.h"
 
-enum { K_PLAIN, K_REF, K_BOX, K_ARRAY, K_LIST, K_TABLE, K_TREE, K_TUPLE, K_N };
-static const char KLET[] = "prbaltTu";
-static const char* KNAME[] = { "plain", "Ref", "Box", "Array", "List", "Table", "Tree", "Tuple" };
+/* the last seven hold their references in containers whose key, value or element type is NOT a plain Ref: a 4-byte tag on the
+** other side of a key/value pair (a side smaller than a pointer), or a plain struct stored inline whose fields are the references */
+enum { K_PLAIN, K_REF, K_BOX, K_ARRAY, K_LIST, K_TABLE, K_TREE, K_TUPLE,
+       K_TREE_SK, K_TREE_SV, K_TABLE_SK, K_TABLE_SV, K_ARRAY_P, K_LIST_P, K_TREE_P, K_N };
+static const char KLET[] = "prbaltTuSVHhALP";
+static const char* KNAME[] = { "plain", "Ref", "Box", "Array", "List", "Table", "Tree", "Tuple",
+  "Tree<tag4,Ref>", "Tree<Ref,tag4>", "Table<tag4,Ref>", "Table<Ref,tag4>", "Array<struct>", "List<struct>", "Tree<Int,struct>" };
 enum { R_NONE, R_STACK, R_NEWROOT, R_ROOTREF, R_TLS, R_REG, R_N };
 static const char RLET[] = "-snrtg";
 static const char* RNAME[] = { "none", "stack", "new_root", "root-Ref-holder", "thread-local", "callee-saved-register" };
@@ -39,6 +43,9 @@ static const char* RNAME[] = { "none", "stack", "new_root", "root-Ref-holder", "
 struct Plain { var a; var b; uint64_t canary; };
 var Plain = Cello(Plain);
 #define CANARY 0xFEEDFACECAFEBEEFULL
+struct Tag4 { int32_t v; };
+var Tag4 = Cello(Tag4);
+#define TAG(k) $(Tag4, (int32_t)(k))
 
 #define MAXN 4
 struct shape { int n; int kind[MAXN]; int root[MAXN]; unsigned edges[MAXN]; int order; };
@@ -110,6 +117,13 @@ static var alloc_node(int kind, int as_root) {
   case K_TABLE: return as_root ? (var)new_root(Table, Ref, Ref) : (var)new(Table, Ref, Ref);
   case K_TREE:  return as_root ? (var)new_root(Tree, Ref, Ref) : (var)new(Tree, Ref, Ref);
   case K_TUPLE: return as_root ? (var)new_root(Tuple) : (var)new(Tuple);
+  case K_TREE_SK:  return as_root ? (var)new_root(Tree, Tag4, Ref) : (var)new(Tree, Tag4, Ref);
+  case K_TREE_SV:  return as_root ? (var)new_root(Tree, Ref, Tag4) : (var)new(Tree, Ref, Tag4);
+  case K_TABLE_SK: return as_root ? (var)new_root(Table, Tag4, Ref) : (var)new(Table, Tag4, Ref);
+  case K_TABLE_SV: return as_root ? (var)new_root(Table, Ref, Tag4) : (var)new(Table, Ref, Tag4);
+  case K_ARRAY_P:  return as_root ? (var)new_root(Array, Plain) : (var)new(Array, Plain);
+  case K_LIST_P:   return as_root ? (var)new_root(List, Plain) : (var)new(List, Plain);
+  case K_TREE_P:   return as_root ? (var)new_root(Tree, Int, Plain) : (var)new(Tree, Int, Plain);
   }
   return NULL;
 }
@@ -133,6 +147,10 @@ static void __attribute__((noinline)) build(struct shape* s) {
       for (int k = 0; k < d; k += 2) set(N[i], $R(N[t[k]]), $R(k + 1 < d ? N[t[k + 1]] : NULL));
       break;
     case K_TUPLE: for (int k = 0; k < d; k++) push(N[i], N[t[k]]); break;
+    case K_TREE_SK: case K_TABLE_SK: for (int k = 0; k < d; k++) set(N[i], TAG(k), $R(N[t[k]])); break;
+    case K_TREE_SV: case K_TABLE_SV: for (int k = 0; k < d; k++) set(N[i], $R(N[t[k]]), TAG(k)); break;
+    case K_ARRAY_P: case K_LIST_P: for (int k = 0; k < d; k += 2) push(N[i], $(Plain, N[t[k]], k + 1 < d ? N[t[k + 1]] : NULL, CANARY)); break;
+    case K_TREE_P: for (int k = 0; k < d; k += 2) set(N[i], $I(k), $(Plain, N[t[k]], k + 1 < d ? N[t[k + 1]] : NULL, CANARY)); break;
     }
   }
   for (int i = 0; i < s->n; i++) {
@@ -184,6 +202,21 @@ static const char* verify_node(struct shape* s, int i) {
   case K_TUPLE:
     if (len(x) != (size_t)d) return "contents-corrupted";
     for (int k = 0; k < d; k++) if (get(x, $I(k)) != N[t[k]]) return "contents-corrupted";
+    return NULL;
+  case K_TREE_SK: case K_TABLE_SK:
+    if (len(x) != (size_t)d) return "contents-corrupted";
+    for (int k = 0; k < d; k++) if (deref(get(x, TAG(k))) != N[t[k]]) return "contents-corrupted";
+    return NULL;
+  case K_TREE_SV: case K_TABLE_SV:
+    if (len(x) != (size_t)d) return "contents-corrupted";
+    for (int k = 0; k < d; k++) if (((struct Tag4*)get(x, $R(N[t[k]])))->v != k) return "contents-corrupted";
+    return NULL;
+  case K_ARRAY_P: case K_LIST_P: case K_TREE_P:
+    if (len(x) != (size_t)((d + 1) / 2)) return "contents-corrupted";
+    for (int k = 0; k < d; k += 2) {
+      struct Plain* q = get(x, $I(s->kind[i] == K_TREE_P ? k : k / 2));
+      if (q->canary != CANARY || q->a != N[t[k]] || q->b != (k + 1 < d ? N[t[k + 1]] : NULL)) return "contents-corrupted";
+    }
     return NULL;
   }
   return NULL;
@@ -329,13 +362,20 @@ static void __attribute__((noinline)) ladder_fill(var cont, int kind, var* kids,
     case K_ARRAY: case K_LIST: push(cont, $R(kids[k])); break;
     case K_TABLE: case K_TREE: if (k & 1) set(cont, $R(kids[k - 1]), $R(kids[k])); else set(cont, $R(kids[k]), $R(NULL)); break;
     case K_TUPLE: push(cont, kids[k]); break;
+    case K_TREE_SK: case K_TABLE_SK: set(cont, TAG(k), $R(kids[k])); break;
+    case K_TREE_SV: case K_TABLE_SV: set(cont, $R(kids[k]), TAG(k)); break;
+    case K_ARRAY_P: case K_LIST_P: push(cont, $(Plain, kids[k], NULL, CANARY)); break;
+    case K_TREE_P: set(cont, $I(k), $(Plain, NULL, kids[k], CANARY)); break;
     }
   }
 }
 
 static void __attribute__((noinline)) ladder_remove_last(var cont, int kind, var* kids, int k) {
   switch (kind) {
-  case K_ARRAY: case K_LIST: case K_TUPLE: pop(cont); break;
+  case K_ARRAY: case K_LIST: case K_TUPLE: case K_ARRAY_P: case K_LIST_P: pop(cont); break;
+  case K_TREE_SK: case K_TABLE_SK: rem(cont, TAG(k)); break;
+  case K_TREE_SV: case K_TABLE_SV: rem(cont, $R(kids[k])); break;
+  case K_TREE_P: rem(cont, $I(k)); break;
   case K_TABLE: case K_TREE:
     if (k & 1) { set(cont, $R(kids[k - 1]), $R(NULL)); }   /* the value goes away, its key stays */
     else rem(cont, $R(kids[k]));
@@ -347,7 +387,7 @@ static void ladder(void) {
   vf.phase = "c01-ladder";
   static const int sizes[] = { 0, 1, 5, 6, 11, 12, 23, 24, 53, 54, 101, 102 };
   static var kids[128];
-  int kinds[] = { K_ARRAY, K_LIST, K_TABLE, K_TREE, K_TUPLE };
+  int kinds[] = { K_ARRAY, K_LIST, K_TABLE, K_TREE, K_TUPLE, K_TREE_SK, K_TREE_SV, K_TABLE_SK, K_TABLE_SV, K_ARRAY_P, K_LIST_P, K_TREE_P };
   for (size_t ki = 0; ki < sizeof kinds / sizeof kinds[0]; ki++) {
     for (int cm = 0; cm < 2; cm++) {
       int kind = kinds[ki];
@@ -470,7 +510,7 @@ int main(int argc, char** argv) {
   }
   else {
     vf.phase = "c01-shapes";
-    const char* ks = vf_param("kinds", KLET), *rs = vf_param("roots", RLET);
+    const char* ks = vf_param("kinds", "prbaltTu"), *rs = vf_param("roots", RLET);
     for (const char* p = ks; *p; p++) { const char* q = strchr(KLET, *p); if (q) allowed_kinds[n_allowed_kinds++] = (int)(q - KLET); }
     for (const char* p = rs; *p; p++) { const char* q = strchr(RLET, *p); if (q) allowed_roots[n_allowed_roots++] = (int)(q - RLET); }
     collect_mode = vf_param_is("collect", "threshold", "forced");
